@@ -291,8 +291,35 @@ impl Prop for C03 {
                 Upd::DeleteWhere(gen_qts(rng, &u, nvars, true, malformed))
             } else {
                 let mut w = gen_group(rng, &u, nvars, 1, true, &mut fresh);
-                let shape = if !u.seeds.is_empty() && rng.chance(1, 4) { 3 } else { rng.below(3) };
+                let shape = if !u.seeds.is_empty() && rng.chance(1, 4) { 3 } else if !u.seeds.is_empty() && rng.chance(1, 6) { 4 } else { rng.below(3) };
                 let (d, i) = match shape {
+                    4 => {
+                        // the WHERE clause yields the same solution several times (both branches of a UNION match, or a sub-select
+                        // projects the distinguishing variable away) and the INSERT template allocates blank nodes: solutions form
+                        // a multiset, one fresh blank node per solution occurrence
+                        stats.hit("duplicate_solutions_with_template_bnodes");
+                        let (_, sp, _) = rng.pick(&u.seeds).clone();
+                        let tp = (Term::Var(0), Term::Const(sp), Term::Var(1));
+                        let g1 = Pat::Group(vec![Pat::Bgp(vec![tp.clone()])]);
+                        w = match rng.below(3) {
+                            0 => Pat::Group(vec![Pat::Union(vec![g1.clone(), g1.clone()])]),
+                            1 => {
+                                let g2 = super::c02::near_copy(rng, &u, &g1);
+                                Pat::Group(vec![Pat::Union(vec![g1.clone(), g2])])
+                            }
+                            _ => {
+                                let mut spec = Spec::star();
+                                spec.proj = Some(vec![Item::Var(0)]);
+                                Pat::Group(vec![Pat::Sub(spec, Box::new(g1.clone()))])
+                            }
+                        };
+                        let b = TT::Bnode("b0".into());
+                        let i = vec![
+                            QT { s: b.clone(), p: TT::Const(rng.pick(&u.preds).clone()), o: TT::Var(0), g: None },
+                            QT { s: TT::Var(0), p: TT::Const(rng.pick(&u.preds).clone()), o: b, g: if rng.chance(1, 3) { Some(TT::Const(rng.pick(&u.graphs).clone())) } else { None } },
+                        ];
+                        (None, Some(i))
+                    }
                     3 => {
                         // "move"/"rename": the WHERE matches a whole family of stored quads, the DELETE template removes
                         // exactly what was matched and the INSERT template re-attaches the matched terms elsewhere
